@@ -176,12 +176,20 @@ func (e *Explorer) worker(id int) {
 	}
 	e.TotalQueries += solver.Queries
 	e.TotalSolverTime += solver.Time
+	for _, alt := range in.solverAlt {
+		if alt != solver {
+			e.TotalQueries += alt.Queries
+			e.TotalSolverTime += alt.Time
+			alt.Close()
+		}
+	}
 	e.mu.Unlock()
 }
 
 func (e *Explorer) runPath(in *Interp, it workItem) {
 	h := it.h
 	in.harness = h.Name
+	e.selectSolver(in, h)
 	in.resetPath(it.prefix, it.model)
 	if h.Unwind > 0 {
 		in.cfg.Unwind = h.Unwind
@@ -336,6 +344,33 @@ func (e *Explorer) runPath(in *Interp, it workItem) {
 }
 
 func solver0(in *Interp) time.Duration { return in.solver.Time }
+
+// selectSolver honours a harness's "verif:solver <kind>" directive: the worker
+// keeps one extra solver process per kind and the interpreter is pointed at it
+// for the paths of that harness (and back at the default one for the others).
+func (e *Explorer) selectSolver(in *Interp, h *HarnessRun) {
+	if in.solverAlt == nil {
+		in.solverAlt = map[string]*Solver{in.solver.kind: in.solver}
+	}
+	kind := h.Meta.Solver
+	if kind == "" {
+		kind = e.solver
+	}
+	if in.solver.kind == kind {
+		return
+	}
+	s := in.solverAlt[kind]
+	if s == nil {
+		var err error
+		if s, err = NewSolver(kind, e.timeout); err != nil {
+			fmt.Fprintln(os.Stderr, "cannot start solver:", err)
+			return
+		}
+		s.log = in.solver.log
+		in.solverAlt[kind] = s
+	}
+	in.solver = s
+}
 
 func firstLine(s string, full bool) string {
 	if full {
